@@ -69,17 +69,20 @@ class RemoveAnnotations(SuiteTransformer):
         return node
 
     def visit_AnnAssign(self, node):
+        # The class this statement is an attribute of, even when it is nested in a compound statement of the class body
+        class_node = node.namespace if isinstance(node.namespace, ast.ClassDef) else None
+
         def is_dataclass_field(node):
             if sys.version_info < (3, 7):
                 return False
 
-            if not isinstance(get_parent(node), ast.ClassDef):
+            if class_node is None:
                 return False
 
-            if len(get_parent(node).decorator_list) == 0:
+            if len(class_node.decorator_list) == 0:
                 return False
 
-            for decorator_node in get_parent(node).decorator_list:
+            for decorator_node in class_node.decorator_list:
                 if isinstance(decorator_node, ast.Name) and decorator_node.id == 'dataclass':
                     return True
                 elif isinstance(decorator_node, ast.Attribute) and decorator_node.attr == 'dataclass':
@@ -95,15 +98,15 @@ class RemoveAnnotations(SuiteTransformer):
             if sys.version_info < (3, 5):
                 return False
 
-            if not isinstance(get_parent(node), ast.ClassDef):
+            if class_node is None:
                 return False
 
-            if len(get_parent(node).bases) == 0:
+            if len(class_node.bases) == 0:
                 return False
 
             tricky_types = ['NamedTuple', 'TypedDict']
 
-            for base_node in get_parent(node).bases:
+            for base_node in class_node.bases:
                 if isinstance(base_node, ast.Name) and base_node.id in tricky_types:
                     return True
                 elif isinstance(base_node, ast.Attribute) and base_node.attr in tricky_types:
@@ -112,7 +115,7 @@ class RemoveAnnotations(SuiteTransformer):
             return False
 
         # is this a class attribute or a variable?
-        if isinstance(get_parent(node), ast.ClassDef):
+        if class_node is not None:
             if not self._options.remove_class_attribute_annotations:
                 return node
         else:
